@@ -298,18 +298,81 @@ def us(stmts, names=None, syn=None):
 # abstract data -> real Python objects
 # ---------------------------------------------------------------------------
 
+class PrivateError(Exception):
+    """An exception class the engine knows nothing about (property C38)."""
+
+    def __init__(self, fid):
+        super().__init__(f"injected fault {fid}")
+        self.fid = fid
+
+
+FAULTS = {}
+
+
+def fault(fid):
+    """The unique exception object of fault `fid` for the current render."""
+    if fid not in FAULTS:
+        FAULTS[fid] = PrivateError(fid)
+    return FAULTS[fid]
+
+
+class Raiser:
+    def __init__(self, exc, fid):
+        self.exc, self.fid = exc, fid
+
+    def fire(self, what):
+        if self.exc == "Private":
+            raise fault(self.fid)
+        raise {"AttributeError": AttributeError, "KeyError": KeyError, "IndexError": IndexError,
+               "TypeError": TypeError}[self.exc](what)
+
+
+class FaultyIter:
+    """Iterable whose k-th step raises the private exception."""
+
+    def __init__(self, items, k, fid):
+        self.items, self.k, self.fid = items, k, fid
+
+    def __iter__(self):
+        for i, x in enumerate(self.items, 1):
+            if i == self.k:
+                raise fault(self.fid)
+            yield x
+        raise fault(self.fid)
+
+
 class Probe:
     """Data object with separate attribute and item tables (attribute syntax must prefer
-    attributes, subscript syntax items)."""
+    attributes, subscript syntax items).  Entries may be Raisers: fetching them raises."""
 
-    def __init__(self, oid, attrs, items):
+    def __init__(self, oid, attrs, items, strval=None):
         object.__setattr__(self, "_jv_id", oid)
         object.__setattr__(self, "_jv_items", items)
+        object.__setattr__(self, "_jv_araise", {k: v for k, v in attrs.items() if isinstance(v, Raiser)})
+        object.__setattr__(self, "_jv_str", strval)
         for k, v in attrs.items():
-            object.__setattr__(self, k, v)
+            if not isinstance(v, Raiser):
+                object.__setattr__(self, k, v)
+
+    def __getattr__(self, name):
+        ar = object.__getattribute__(self, "_jv_araise")
+        if name in ar:
+            ar[name].fire(name)
+        raise AttributeError(name)
 
     def __getitem__(self, key):
-        return self._jv_items[key]
+        v = self._jv_items[key]
+        if isinstance(v, Raiser):
+            v.fire(key)
+        return v
+
+    def __str__(self):
+        sv = self._jv_str
+        if sv is None:
+            return repr(self)
+        if isinstance(sv, Raiser):
+            sv.fire("__str__")
+        return sv
 
     def __repr__(self):
         return f"<Probe {self._jv_id}>"
@@ -321,6 +384,13 @@ class RecFn:
 
     def __call__(self, *args, **kw):
         self.log.append(("call", self.fid, len(args), list(kw)))
+        if self.mode == "raise_at":
+            self.n = getattr(self, "n", 0) + 1
+            if self.n == self.k:
+                raise fault(self.fid)
+            return args[0] if (self.then == "arg0" and args) else self.ret
+        if self.mode == "stopiter":
+            raise StopIteration()
         if self.mode == "const": return self.ret
         if self.mode == "arg0": return args[0] if args else self.ret
         if self.mode == "nargs": return len(args) + 10 * len(kw)
@@ -358,10 +428,17 @@ def to_py(v, objs, log, cache=None, async_fns=False):
         if v["id"] not in cache:
             o = objs[v["id"]]
             cache[v["id"]] = Probe(v["id"], {k: to_py(x, objs, log, cache, async_fns) for k, x in o["attrs"].items()},
-                                   {k: to_py(x, objs, log, cache, async_fns) for k, x in o["items"].items()})
+                                   {k: to_py(x, objs, log, cache, async_fns) for k, x in o["items"].items()},
+                                   to_py(o["str"], objs, log, cache, async_fns) if "str" in o else None)
         return cache[v["id"]]
     if t == "fn":
-        return (AsyncRecFn if async_fns else RecFn)(v["id"], v["mode"], to_py(v["ret"], objs, log, cache, async_fns), log)
+        f = (AsyncRecFn if async_fns else RecFn)(v["id"], v["mode"], to_py(v["ret"], objs, log, cache, async_fns), log)
+        f.k, f.then = v.get("k"), v.get("then")
+        return f
+    if t == "raiser":
+        return Raiser(v["exc"], v["id"])
+    if t == "iterfault":
+        return FaultyIter([to_py(x, objs, log, cache, async_fns) for x in v["v"]], v["k"], v["id"])
     raise ValueError(t)
 
 
